@@ -551,6 +551,7 @@ func init() {
 		Assumptions:   []string{"DESIGN §5.4 block rules are the language definition"},
 		MinNontrivial: 1000,
 		Run: func(c *core.Ctx) {
+			limitCasesCheck(c, false)
 			runRefProfile(c, &refProfile{
 				cfg: func(r *rand.Rand) lang.GenCfg {
 					cfg := lang.CfgBlocks()
@@ -763,6 +764,31 @@ func c04Fixed(c *core.Ctx, run func(i int64, p *lang.Program, tag string)) int64
 		run(i, &lang.Program{Stmts: []*lang.Stmt{blk("srv", "n1", 1), {Kind: lang.SBind, Name: "srv", Sel: "all", Target: "struct"}}}, "all_to_struct")
 	}
 	i++
+	// many bind statements in one run (every one after the first warns), at toplevel and inside blocks
+	for _, nb := range []int{5, 15, 16, 17, 18, 19, 31, 32, 33, 34, 35, 64, 65, 100, 257, 300} {
+		for variant := 0; variant < 3; variant++ {
+			if c.Mine(i) {
+				p := &lang.Program{Stmts: []*lang.Stmt{blk("srv", "n1", 1), blk("other", "o", 100), blk("srv", "n2", 2)}}
+				host := blk("host", "h", 50)
+				for b := 0; b < nb; b++ {
+					bs := &lang.Stmt{Kind: lang.SBind, Name: "srv", Sel: []string{"first", "last", "all", "first"}[b%4], Target: []string{"struct", "slice", "slice", "slice"}[b%4]}
+					switch {
+					case variant == 1 && b%2 == 1:
+						host.Body = append(host.Body, bs)
+					case variant == 2 && b%5 == 4:
+						p.Stmts = append(p.Stmts, blk("srv", fmt.Sprintf("late%d", b), 1000+b), bs)
+					default:
+						p.Stmts = append(p.Stmts, bs)
+					}
+				}
+				if variant == 1 {
+					p.Stmts = append(p.Stmts, host)
+				}
+				run(i, p, "many_binds_in_one_run")
+			}
+			i++
+		}
+	}
 	// long results: hundreds of toplevel blocks, binds in between and after
 	for _, n := range []int{200, 255, 256, 257, 300, 1000} {
 		for _, sel := range []string{"last", "all", "first"} {
@@ -837,6 +863,7 @@ func init() {
 		Assumptions:   []string{"DESIGN §5.4 bind rules are the language definition"},
 		MinNontrivial: 1000,
 		Run: func(c *core.Ctx) {
+			limitCasesCheck(c, true)
 			runRefProfile(c, &refProfile{
 				cfg: func(r *rand.Rand) lang.GenCfg {
 					cfg := lang.CfgBind()
